@@ -11,6 +11,7 @@ import (
 	"flag"
 	"fmt"
 	"math/rand"
+	"path/filepath"
 	"runtime"
 	"sync"
 	"sync/atomic"
@@ -48,6 +49,8 @@ func main() {
 	nkeys := flag.Int("keys", 600, "")
 	size := flag.Int("size", 24*1024, "cache capacity (cost = key + value octets)")
 	pairs := flag.Int("pairs", 0, "rounds of one plain store racing one store-if-absent on a fresh key")
+	nlStim := flag.String("netlist", "", "TLC-enumerated range lists (json) for the address-range table")
+	nlRandom := flag.Int("nlrandom", 0, "random range lists for the address-range table")
 	nopoison := flag.Bool("nopoison", false, "released buffers go straight back to the pool (as in production)")
 	flag.Parse()
 	if *nopoison {
@@ -58,6 +61,10 @@ func main() {
 	defer tr.Close()
 	if *pairs > 0 {
 		pairPhase(*pairs)
+		return
+	}
+	if *nlStim != "" || *nlRandom > 0 {
+		netlistMode(*nlStim, *nlRandom, filepath.Dir(*out))
 		return
 	}
 	c, err := cache.NewMemoryCache(*size)
